@@ -35,6 +35,62 @@ def _unknown(oid, why, function, loc="", kind="out-of-subset"):
             "replay_hint": {"family": "attachments"}}
 
 
+
+_ACTIVE = []          # non-empty while an obligation of this module is being generated / discharged (the predicate below is process-wide)
+# results of string operations the engine gives a fresh unconstrained value: a model that picks them freely is no counter-model
+UNTRUSTED_PREFIXES = ("c01piece!", "c01part!", "strip!", "lstrip!", "rstrip!", "lower!", "upper!", "casefold!", "title!", "capitalize!", "replace!", "join!")
+
+
+def pieces_untrusted(pc, goal):
+    """a `sat` answer that mentions the arbitrary pieces of a split string is no counter-model (the pieces are parts of the string)"""
+    if not _ACTIVE:
+        return False
+    seen = set()
+    stack = list(pc) if isinstance(pc, (list, tuple)) else [pc]
+    stack.append(goal)
+    while stack:
+        x = stack.pop()
+        if not z3.is_expr(x):
+            continue
+        i = x.get_id()
+        if i in seen:
+            continue
+        seen.add(i)
+        if z3.is_app(x) and x.decl().kind() == z3.Z3_OP_UNINTERPRETED and x.decl().name().startswith(UNTRUSTED_PREFIXES):
+            return True
+        stack.extend(x.children())
+    return False
+
+
+def _str_models(reg):
+    """`s.split(sep[, n])` / `s.rsplit(sep[, n])` with a separator: a list of at least one string (at most n + 1 for a constant n);
+    `s.partition(sep)` / `s.rpartition(sep)`: three strings.  The pieces themselves are arbitrary (over-approximation)."""
+    from pyvc.values import VInt, VSeq, VStr, VTuple, VNoneT, fresh_name
+
+    def m_split(ex, st, args, kwargs, node):
+        rest = list(args[1:])
+        if not rest or not isinstance(rest[0], VStr):
+            from pyvc.values import VUnk
+            return [(st, VUnk("str.split"))]        # no separator: the result may be empty
+        n = z3.Int(fresh_name("n_pieces"))
+        st.assume(n >= 1)
+        if len(rest) > 1 and isinstance(rest[1], VInt) and rest[1].const() is not None and rest[1].const() >= 0:
+            st.assume(n <= rest[1].const() + 1)
+        f = z3.Function(fresh_name("c01piece"), z3.IntSort(), z3.StringSort())
+        return [(st, VSeq(n, lambda i: VStr(f(i)), "str"))]
+
+    def m_partition(ex, st, args, kwargs, node):
+        return [(st, VTuple([VStr(z3.String(fresh_name("c01part"))) for _ in range(3)]))]
+
+    from pyvc import solve
+    if pieces_untrusted not in solve.SAT_UNTRUSTED:
+        solve.SAT_UNTRUSTED.append(pieces_untrusted)
+    for k in ("split", "rsplit"):
+        reg.ext_models.setdefault(f"str.{k}", m_split)
+    for k in ("partition", "rpartition"):
+        reg.ext_models.setdefault(f"str.{k}", m_partition)
+
+
 # ------------------------------------------------------------------ (1) the flag function --
 def flag_function(repo, tier):
     from pyvc import verify
@@ -63,6 +119,7 @@ def flag_function(repo, tier):
                    ensures=[("true-only-for-keys-of-MIME_TYPE_MAPPING", implies_key)], raises=[],
                    note="the record invariant of EmailAttachment rests on it")
     reg = Registry()
+    _str_models(reg)
     rep = verify.run_contract("C01", c, reg, Universe(repo), repo=repo, timeout_ms=20000 if tier == "thorough" else None,
                               executor_cls=C07.EXECUTOR, executor_kw=None)
     if rep.error == "contract-target-missing":
@@ -189,6 +246,7 @@ def _run_generator(repo, tier, with_invariant):
         return None, "contract missing"
     c = isa[0]
     reg.ext_models.setdefault("mimetypes.guess_extension", C07.m_guess_extension)
+    _str_models(reg)
     MIMES = C07.tables()[3]
     base_hyps = c.hyps
 
@@ -223,6 +281,14 @@ def attachment_surface(repo, tier):
     dataclass): proved -> nothing else is needed.  Otherwise with the record invariant as hypothesis, and then the two obligations the
     invariant rests on become part of the proof (lemmas on demand: they only appear in a tree whose generator relies on them)."""
     short = "C01/data_types.py::EmailContent.iterate_supported_attachments"
+    _ACTIVE.append(1)
+    try:
+        return _attachment_surface(repo, tier, short)
+    finally:
+        _ACTIVE.pop()
+
+
+def _attachment_surface(repo, tier, short):
     free, why = _run_generator(repo, tier, False)
     if free is None:
         return {"obligations": [_unknown(short + "/out-of-subset", why, ISA)], "functions": []}
